@@ -25,7 +25,7 @@ func TestMain(m *testing.M) { vp.Main(m) }
 // Step is one scripted behaviour of the underlying reader.
 type Step struct {
 	N   int `json:"n"`   // bytes to deliver at most
-	Err int `json:"err"` // 0 none, 1 injected error, 2 io.EOF, 3 a negative count (-(N%5+1)) with an error and no data
+	Err int `json:"err"` // 0 none, 1 injected error, 2 io.EOF, 3 a negative count (-(N%5+1)) with an error and no data, 4 an error wrapping io.EOF, 5 an error whose Is method reports io.EOF
 }
 
 // ReadCase is a stream, a limit, a reader script and a sequence of buffer sizes.
@@ -58,6 +58,18 @@ type sizedScripted struct {
 func (s sizedScripted) Len() int { return max(0, *s.avail-s.pos) }
 
 var errInjected = errors.New("injected")
+
+// Errors of the underlying reader that are io.EOF to errors.Is but are not
+// io.EOF: they pass through as they are, like any other error of r.
+var (
+	errWrappedEOF       = fmt.Errorf("upstream closed the connection: %w", io.EOF)
+	errEOFLike    error = eofLike{}
+)
+
+type eofLike struct{}
+
+func (eofLike) Error() string        { return "end of stream (custom type)" }
+func (eofLike) Is(target error) bool { return target == io.EOF }
 
 func streamByte(i int) byte { return byte(i%251 + 1) }
 
@@ -95,6 +107,10 @@ func (s *scripted) Read(p []byte) (int, error) {
 		return n, errInjected
 	case 2:
 		return n, io.EOF
+	case 4:
+		return n, errWrappedEOF
+	case 5:
+		return n, errEOFLike
 	}
 	if !scriptedStep && s.pos == s.n && n == 0 && len(p) > 0 {
 		return 0, io.EOF
@@ -250,7 +266,7 @@ var readProp = vp.Register(vp.Prop[ReadCase]{
 		}
 		limit := rapid.SampledFrom([]uint64{0, 1, uint64(max(l-1, 0)), uint64(l), uint64(l + 1), uint64(2 * l), uint64(l / 2), 1 << 63, math.MaxUint64}).Draw(t, "limit")
 		steps := rapid.SliceOfN(rapid.Custom(func(t *rapid.T) Step {
-			return Step{N: rapid.IntRange(0, 64).Draw(t, "n"), Err: rapid.SampledFrom([]int{0, 0, 0, 0, 0, 0, 0, 1, 1, 2, 2, 3}).Draw(t, "err")}
+			return Step{N: rapid.IntRange(0, 64).Draw(t, "n"), Err: rapid.SampledFrom([]int{0, 0, 0, 0, 0, 0, 0, 1, 1, 2, 2, 3, 4, 5}).Draw(t, "err")}
 		}), 0, 14).Draw(t, "steps")
 		c := ReadCase{Len: l, Limit: limit, Steps: steps, Sizes: rapid.SliceOfN(rapid.IntRange(0, 64), 1, 20).Draw(t, "sizes")}
 		if rapid.IntRange(0, 2).Draw(t, "spare") == 0 {
@@ -937,7 +953,7 @@ var nestedProp = vp.Register(vp.Prop[NestedCase]{
 		n := rapid.IntRange(1, 16).Draw(t, "reads")
 		c := NestedCase{Len: l, Inner: inner, Outer: outer}
 		c.Steps = rapid.SliceOfN(rapid.Custom(func(t *rapid.T) Step {
-			return Step{N: rapid.IntRange(0, 40).Draw(t, "n"), Err: rapid.SampledFrom([]int{0, 0, 0, 0, 1, 2}).Draw(t, "err")}
+			return Step{N: rapid.IntRange(0, 40).Draw(t, "n"), Err: rapid.SampledFrom([]int{0, 0, 0, 0, 1, 2, 4, 5}).Draw(t, "err")}
 		}), 0, 8).Draw(t, "steps")
 		for i := 0; i < n; i++ {
 			c.Reads = append(c.Reads, rapid.IntRange(0, 40).Draw(t, "size"))
